@@ -23,7 +23,8 @@
 (*   rest     every other file (frame)                                     *)
 (*   svc      what the systemctl calls so far leave the service in         *)
 (*   calls    systemctl calls of the current command, each with the        *)
-(*            contents of the system locations at the time of the call     *)
+(*            contents of the system locations at the time of the call (s) *)
+(*            and whether one of them had already been written (w)         *)
 (*                                                                         *)
 (* No bound on the number of commands: the reachable graph is finite, so   *)
 (* the exhaustive configuration covers command sequences of every length   *)
@@ -43,13 +44,14 @@ Cmds     == {"backup", "install", "restoreT", "restoreF", "uninstallS", "uninsta
 Restores == {"restoreT", "restoreF"}
 
 VARIABLES sys, pkg, bak, bdir, rest, svc, calls,
+          wrote, \* a system location has been written / removed by the current (last) command, whatever the bytes
           cmd,   \* the command in progress (pc > 0) or the last one completed (pc = 0); "none" initially
           pc,    \* index of the next step of Prog(cmd); 0 = between commands
           res,   \* how the last command ended: "ok" | "skip" (restore without backup) | "fail" (exit 1) | "panic"
           pre,   \* ghost: the state when the current/last command began
           s0, rt, chk   \* ghosts for RoundTrip, see NextRt
 
-vars == <<sys, pkg, bak, bdir, rest, svc, calls, cmd, pc, res, pre, s0, rt, chk>>
+vars == <<sys, pkg, bak, bdir, rest, svc, calls, wrote, cmd, pc, res, pre, s0, rt, chk>>
 
 -----------------------------------------------------------------------------
 \* The commands as programs (order of main.rs / linux.rs).
@@ -101,14 +103,14 @@ Init ==
     /\ sys = All(i) /\ bak = All(b) /\ bdir = (b # A) /\ pkg = All(p)
     /\ rest = "r0"
     /\ svc = IF i = A THEN "stopped" ELSE "running"
-    /\ calls = << >> /\ cmd = "none" /\ pc = 0 /\ res = "none"
+    /\ calls = << >> /\ wrote = FALSE /\ cmd = "none" /\ pc = 0 /\ res = "none"
     /\ pre = [sys |-> All(i), bak |-> All(b), bdir |-> (b # A), svc |-> IF i = A THEN "stopped" ELSE "running",
               pkg |-> All(p), rest |-> "r0"]
     /\ s0 = All(A) /\ rt = 0 /\ chk = FALSE
 
 Begin(c) ==
   /\ pc = 0
-  /\ cmd' = c /\ pc' = 1 /\ res' = "run" /\ calls' = << >>
+  /\ cmd' = c /\ pc' = 1 /\ res' = "run" /\ calls' = << >> /\ wrote' = FALSE
   /\ pre' = Snapshot
   /\ chk' = FALSE
   /\ s0' = IF rt = 0 THEN All(A) ELSE s0
@@ -126,28 +128,29 @@ Src(a) == IF a \in {"pkg", "cpP", "unitP"} THEN pkg ELSE bak
 \* one systemctl invocation (linux_service.rs); the stand-in records what the system locations hold right now
 DoCall ==
   /\ pc > 0 /\ St.k = "call"
-  /\ calls' = Append(calls, [v |-> St.a, s |-> sys])
+  /\ calls' = Append(calls, [v |-> St.a, s |-> sys, w |-> wrote])
   /\ svc' = CASE St.a = "stop" -> "stopped" [] St.a = "start" -> "running" [] OTHER -> svc
   /\ Adv
-  /\ UNCHANGED <<sys, pkg, bak, bdir, rest, cmd, pre>>
+  /\ UNCHANGED <<sys, pkg, bak, bdir, rest, wrote, cmd, pre>>
 
 \* main.rs check_backup_exists: the backed-up executable decides
 DoCheckBackup ==
   /\ pc > 0 /\ St.k = "chk"
   /\ IF bak["exe"] = A THEN Finish("skip") ELSE Adv
-  /\ UNCHANGED <<sys, pkg, bak, bdir, rest, svc, calls, cmd, pre>>
+  /\ UNCHANGED <<sys, pkg, bak, bdir, rest, svc, calls, wrote, cmd, pre>>
 
 \* running::proxy_agent_version_target_folder runs `<exe> --version` on the packaged / backed-up executable
 DoProbe ==
   /\ pc > 0 /\ St.k = "probe"
   /\ IF Src(St.a)["exe"] = A THEN Finish("panic") ELSE Adv
-  /\ UNCHANGED <<sys, pkg, bak, bdir, rest, svc, calls, cmd, pre>>
+  /\ UNCHANGED <<sys, pkg, bak, bdir, rest, svc, calls, wrote, cmd, pre>>
 
 \* linux::copy_files, one file: a missing source is logged and skipped
 DoCopyIn ==
   /\ pc > 0 /\ St.k \in {"cpP", "cpB"}
   /\ LET src == Src(St.k) IN
-       sys' = IF src[St.a] # A THEN [sys EXCEPT ![St.a] = src[St.a]] ELSE sys
+       /\ sys' = IF src[St.a] # A THEN [sys EXCEPT ![St.a] = src[St.a]] ELSE sys
+       /\ wrote' = (wrote \/ src[St.a] # A)
   /\ Adv
   /\ UNCHANGED <<pkg, bak, bdir, rest, svc, calls, cmd, pre>>
 
@@ -156,8 +159,8 @@ DoCopyUnit ==
   /\ pc > 0 /\ St.k \in {"unitP", "unitB"}
   /\ LET src == Src(St.k) IN
        IF src["unit"] = A
-       THEN Finish("fail") /\ UNCHANGED sys
-       ELSE sys' = [sys EXCEPT !["unit"] = src["unit"]] /\ Adv
+       THEN Finish("fail") /\ UNCHANGED <<sys, wrote>>
+       ELSE sys' = [sys EXCEPT !["unit"] = src["unit"]] /\ wrote' = TRUE /\ Adv
   /\ UNCHANGED <<pkg, bak, bdir, rest, svc, calls, cmd, pre>>
 
 \* linux::backup_files, one file (copy_file creates Backup/Package first; a missing source is logged and skipped,
@@ -167,20 +170,21 @@ DoBackupFile ==
   /\ bak' = IF sys[St.a] # A THEN [bak EXCEPT ![St.a] = sys[St.a]] ELSE bak
   /\ bdir' = TRUE
   /\ Adv
-  /\ UNCHANGED <<sys, pkg, rest, svc, calls, cmd, pre>>
+  /\ UNCHANGED <<sys, pkg, rest, svc, calls, wrote, cmd, pre>>
 
 \* linux_service::delete_service_config_file: daemon-reload only if the unit file was there
 DoRemoveUnit ==
   /\ pc > 0 /\ St.k = "rmunit"
   /\ IF sys["unit"] # A
-     THEN sys' = [sys EXCEPT !["unit"] = A] /\ Adv
-     ELSE UNCHANGED sys /\ Goto(pc + 2)
+     THEN sys' = [sys EXCEPT !["unit"] = A] /\ wrote' = TRUE /\ Adv
+     ELSE UNCHANGED <<sys, wrote>> /\ Goto(pc + 2)
   /\ UNCHANGED <<pkg, bak, bdir, rest, svc, calls, cmd, pre>>
 
 \* linux::delete_files, one file
 DoDeleteFile ==
   /\ pc > 0 /\ St.k = "rm"
   /\ sys' = [sys EXCEPT ![St.a] = A]
+  /\ wrote' = (wrote \/ sys[St.a] # A)
   /\ Adv
   /\ UNCHANGED <<pkg, bak, bdir, rest, svc, calls, cmd, pre>>
 
@@ -189,7 +193,7 @@ DoDeleteBackup ==
   /\ pc > 0 /\ St.k = "rmbak"
   /\ bak' = All(A) /\ bdir' = FALSE
   /\ Adv
-  /\ UNCHANGED <<sys, pkg, rest, svc, calls, cmd, pre>>
+  /\ UNCHANGED <<sys, pkg, rest, svc, calls, wrote, cmd, pre>>
 
 BeginBackup     == Begin("backup")
 BeginInstall    == Begin("install")
@@ -216,25 +220,27 @@ Content == {A, "a", "b", "p"}
 TypeOK ==
   /\ sys \in [Locs -> Content] /\ bak \in [Locs -> Content] /\ pkg \in [Locs -> Content]
   /\ bdir \in BOOLEAN /\ svc \in {"running", "stopped"} /\ cmd \in Cmds \cup {"none"}
-  /\ pc \in 0..12 /\ res \in {"none", "run", "ok", "skip", "fail", "panic"} /\ rt \in 0..2 /\ chk \in BOOLEAN
+  /\ wrote \in BOOLEAN /\ pc \in 0..12 /\ res \in {"none", "run", "ok", "skip", "fail", "panic"} /\ rt \in 0..2 /\ chk \in BOOLEAN
 
 \* backup (of an installed version); installation; restore  =>  the four locations are byte-identical to before
 RoundTrip == chk => sys = s0
 
-\* observable form of "stopped before any file was replaced": if the command changed a system location, a `stop`
-\* was issued and, up to and including that call, the locations still held what they held before the command
+\* observable form of "stopped before any file was replaced": if the command wrote or changed a system location, a
+\* `stop` was issued and, up to and including that call, no location had been written and all still held what
+\* they held before the command
 StopBeforeReplaceObs ==
-  (Done /\ sys # pre.sys) =>
-     \E i \in 1..Len(calls) : calls[i].v = "stop" /\ \A j \in 1..i : calls[j].s = pre.sys
+  (Done /\ (sys # pre.sys \/ wrote)) =>
+     \E i \in 1..Len(calls) : calls[i].v = "stop" /\ \A j \in 1..i : calls[j].s = pre.sys /\ ~calls[j].w
 \* ... as a step property of the model
-StopBeforeReplace == [][sys' # sys => svc = "stopped" /\ \E i \in 1..Len(calls) : calls[i].v = "stop"]_vars
+StopBeforeReplace == [][(sys' # sys \/ (wrote' /\ ~wrote)) =>
+                           svc = "stopped" /\ \E i \in 1..Len(calls) : calls[i].v = "stop"]_vars
 
 \* "and started again afterwards": an install, or a restore from a complete backup, ends with `start`, issued when
 \* the locations already held their final contents, and began with `stop`, issued before anything changed
 StartedAfter ==
   (Done /\ (cmd = "install" \/ (cmd \in Restores /\ Full(pre.bak)))) =>
      /\ res = "ok" /\ svc = "running" /\ Len(calls) >= 2
-     /\ calls[1].v = "stop" /\ calls[1].s = pre.sys
+     /\ calls[1].v = "stop" /\ calls[1].s = pre.sys /\ ~calls[1].w
      /\ calls[Len(calls)].v = "start" /\ calls[Len(calls)].s = sys
 
 InstallExact == (Done /\ cmd = "install") => sys = pre.pkg
